@@ -27,6 +27,12 @@ def plan(ctx):
             cases = P.corpus_cases(ctx, v, n_files=300, n_w3=600, modes=30, max_file_bytes=60000, w1_max_bytes=150000, max_w4_bytes=40000)
             cases += P.w9_cases(ctx, 2400)
         shards.extend(P.split(ctx, v, cases, k, "C12:", extra={"docs": True}))
+        # light pass over a much larger corpus: every call made twice on the same argument, results compared
+        if ctx.tier == "quick":
+            light = P.corpus_cases(ctx, v, n_files=80, n_w3=0, modes=6, w1=False, w4=True, max_file_bytes=150000, max_w4_bytes=100000)
+        else:
+            light = P.corpus_cases(ctx, v, all_files=True, n_w3=0, modes=100, w1=False, w4=True)
+        shards.extend(P.split(ctx, v, light, k, "C12:light:", extra={"light": True}))
     return shards
 
 
@@ -223,6 +229,35 @@ def run(shard):
 
     docs_out = open(H._out.name + ".docs", "w") if shard.get("docs") else None
     docs_bytes = [0]
+    if shard.get("light"):
+        for case, id_, code, text in corpus.iter_cases(shard):
+            state["case"] = corpus.replay_case(case)
+            state["hist"] = ["D", "D", "E", "E", "J", "J", "N", "N"]
+            try:
+                x1 = CodeData.from_code(code)
+                x2 = CodeData.from_code(code)
+            except Exception:
+                H.count("decode_raised")
+                continue
+            H.count("checks:C12.repeat", 4)
+            H.count("evaluations", 4)
+            if not same_data(x1, x2):
+                viol("from_code", "repeat call result differs", "from_code(c) twice on the same code object gives different data")
+            try:
+                c1, c2 = x1.to_code(), x1.to_code()
+                if H.strict_diff(c1, c2):
+                    viol("to_code", "repeat call result differs", H.short(H.strict_diff(c1, c2)[:2], 300))
+                j1, j2 = x1.to_json_data(), x1.to_json_data()
+                if canon(j1) != canon(j2):
+                    viol("to_json_data", "repeat call result differs", "to_json_data() twice gives different documents")
+                n1, n2 = x1.normalize(), x1.normalize()
+                if not same_data(n1, n2):
+                    viol("normalize", "repeat call result differs", "normalize() twice gives different data")
+            except Exception as e:
+                viol("api", "call raises on valid argument", "%s: %s" % (type(e).__name__, H.short(e, 200)))
+            if any(isinstance(k2, H.CodeType) for k2 in code.co_consts):
+                H.distinct("light|" + id_)
+        return
     if shard.get("role") == "json_only":
         run_json_only(shard, CodeData, H, dc, json, canon, viol, state, same_data, clobber)
         return
